@@ -66,6 +66,14 @@ def lifecycle_histories(rng, tier):
                 calls.append({"call": "open", "abi": "p", "dirfd": 3 if x != 3 else 5, "path": "a" if x != 3 else "c", "abs": False, "oflags": 1, "rd": True, "wr": True, "app": False})
                 hs.append({"id": "l%d" % n, "setup": setup, "calls": calls})
                 n += 1
+    # the standard streams can be closed like any descriptor and are invalid afterwards (the driver reports through a
+    # private duplicate of its stdout)
+    for x in (0, 1, 2):
+        for k1 in USES:
+            calls = list(opens) + [{"call": "close", "abi": rng.choice("pu"), "fd": x}, use(k1, x, rng.choice("pu")), {"call": "close", "abi": "p", "fd": x},
+                                   {"call": "open", "abi": "p", "dirfd": 3, "path": "a", "abs": False, "oflags": 0, "rd": True, "wr": False, "app": False}]
+            hs.append({"id": "c%d" % n, "setup": setup, "calls": calls})
+            n += 1
     # the standard streams are not directories: every path-taking call through them is refused
     for x in (0, 1, 2):
         for k1 in PATHUSES:
